@@ -54,9 +54,6 @@ def compile_(src, lang):
     return _compile_cached(hashlib.sha256(src).hexdigest(), lang, src)
 
 
-KW_ENDIF_BRACE = re.compile(rb'\b(do|else)\b[ \t]*(?://[^\n]*|/\*[^\n]*?\*/)?[ \t]*\r?\n(?:[ \t]*\r?\n)*[ \t]*#[ \t]*endif\b[^\n]*\n\s*\{')
-
-
 def judge(case):
     lang = case.lang
     rc0, asm0, err0 = compile_(case.src, lang)
@@ -70,8 +67,7 @@ def judge(case):
 
     def fail(cls, detail, out=b''):
         # (part of the signature: does the - minimised - program hold a conditional group that ends between `do` / `else` and its block?)
-        m = KW_ENDIF_BRACE.search(case.src)
-        tag = (' kw-endif-brace:' + m.group(1).decode()) if m else ''
+        tag = gen_c.construct_tags(case.src)
         fails.append(('compile-equivalence', {'class': cls, 'at': [lang], 'got': [detail[:60]], 'index': 0, 'in': [core.preview(case.src, 300)],
                                               'out': [core.preview(out, 300), detail], 'first_in': lang + tag, 'first_out': detail[:120]}))
     changed = False
